@@ -379,3 +379,4 @@ def run(chk, F):
         "recorded line after inlining/optimisation and frame-walk correctness are not decided",
         "masm/arm64.rs (cfg(aarch64)) is not analysed on this host",
     ]
+    from rules import a64; a64.run_c14(chk, F)  # noqa: E702  arm64 siblings (aarch64 fact set)
